@@ -7,7 +7,7 @@ CONSTANTS
   InitSet = {1, 2, 3}
   InitSigner = 1
   MaxNumber = 9
-  UpgradeSets = {{1, 2, 3}, {2, 4}}
+  UpgradeSets = {{2, 4}}
 PROPERTIES UpgradeInstalls AcceptedIsChild SignerEligible SetChangesOnlyAtOffset PendingOnlyAtEpoch ConsIsRoot RejectChangesNothing
 VIEW stateVars
 CHECK_DEADLOCK FALSE
